@@ -43,7 +43,21 @@ type C18Case struct {
 var c18Kinds = []string{"codec", "encoding-id", "response", "response", "logout-response", "soap", "metadata", "authn-request", "logout-request", "handler-callback", "handler-sso-error", "handler-logout-error", "endpoint-encoding-id"}
 
 func genBytes(t *rapid.T) []byte {
-	switch rapid.IntRange(0, 5).Draw(t, "bytekind") {
+	switch rapid.IntRange(0, 7).Draw(t, "bytekind") {
+	case 6:
+		// natural-language-like text over a small alphabet, a few hundred bytes: the DEFLATE stream of such input is a
+		// dynamic-Huffman block whose first bytes vary widely with the input (0x3C '<', 0x1F, 0x78 ... all occur)
+		words := []string{"the", "quick", "brown", "fox", "jumps", "over", "lazy", "dog", "pack", "my", "box", "with", "five", "dozen", "liquor", "jugs", "sphinx", "of", "black", "quartz", "judge", "vow", "a", "and", "saml", "request"}
+		n := rapid.IntRange(20, 120).Draw(t, "nwords")
+		var b bytes.Buffer
+		for i := 0; i < n; i++ {
+			b.WriteString(rapid.SampledFrom(words).Draw(t, "word"))
+			b.WriteString(rapid.SampledFrom([]string{" ", " ", " ", ", ", ". ", "\n"}).Draw(t, "sep"))
+		}
+		return b.Bytes()
+	case 7:
+		// a real message of the protocol
+		return xt.Write(spsim.NewAuthnReq("_"+rapid.StringMatching(`[a-f0-9]{4,32}`).Draw(t, "msgid"), "https://sp"+rapid.StringMatching(`[a-z]{1,12}`).Draw(t, "msgsp")+".example/metadata").Tree(plainStyle), plainStyle.W)
 	case 0:
 		return rapid.SliceOfN(rapid.Byte(), 0, 200).Draw(t, "small")
 	case 1:
@@ -401,9 +415,25 @@ func c18Handler(c C18Case) []*ev.Violation {
 	if d.Doc == nil {
 		return []*ev.Violation{ev.V("C18/not-one-well-formed-document:"+c.Kind, "%s (reply kind %s)", d.XMLErr, d.Kind)}
 	}
-	bd, _ := run(benignFor(c.Values))
+	bd, brep := run(benignFor(c.Values))
 	if bd.Doc == nil {
 		panic("harness: benign handler run produced no document")
+	}
+	// the transport layer of a redirect reply is an encoding like any other: the parameters of the query are those of the same
+	// flow with benign strings (data such as the RelayState cannot add, drop or split parameters)
+	if d.Kind == obs.KindRedirectSAML && bd.Kind == obs.KindRedirectSAML {
+		names := func(loc string) string {
+			_, q, _ := strings.Cut(loc, "?")
+			var out []string
+			for _, kv := range strings.Split(q, "&") {
+				k, _, _ := strings.Cut(kv, "=")
+				out = append(out, k)
+			}
+			return strings.Join(out, ",")
+		}
+		if got, want := names(rep.Header.Get("Location")), names(brep.Header.Get("Location")); got != want {
+			return []*ev.Violation{ev.V("C18/redirect-query-restructured-by-data", "parameters of the redirect URL: %s; with benign strings: %s", got, want)}
+		}
 	}
 	// IDs, timestamps and signature values differ between two runs: compare the structure and the controlled leaves
 	strip := func(n *xt.Node) *xt.Node {
